@@ -1,0 +1,71 @@
+//! Hooks for the deterministic-simulation harness kept outside this repository.
+//!
+//! Compiled only with the `verif-hooks` cargo feature, which no workspace build
+//! or test enables. Every registry is thread-local and empty by default, so
+//! even with the feature on nothing changes until a harness installs a callback
+//! on the thread that drives the `Project`.
+use aiken_lang::{
+    test_framework::{Test, TestResult},
+    tipo::Type,
+};
+use std::{cell::RefCell, rc::Rc};
+use uplc::{PlutusData, ast::Constant};
+
+pub type RawResult = TestResult<(Constant, Rc<Type>), PlutusData>;
+
+/// How a single test is run by `Project::run_runnables`.
+pub type RunFn<'a> = dyn Fn(Test) -> RawResult + Sync + 'a;
+
+/// Called with the exact tests about to be handed to the worker threads.
+pub type Audit = Box<dyn FnMut(&[Test])>;
+
+/// Replaces the parallel section: receives the tests and the way to run one,
+/// returns one result per test, in the order of the tests it was given.
+pub type Executor = Box<dyn FnMut(Vec<Test>, &RunFn<'_>) -> Vec<RawResult>>;
+
+/// Called with the name of each module as it is about to be type-checked.
+pub type ModuleProbe = Box<dyn FnMut(&str)>;
+
+thread_local! {
+    static AUDIT: RefCell<Option<Audit>> = const { RefCell::new(None) };
+    static EXECUTOR: RefCell<Option<Executor>> = const { RefCell::new(None) };
+    static MODULE_PROBE: RefCell<Option<ModuleProbe>> = const { RefCell::new(None) };
+}
+
+pub fn set_audit(audit: Option<Audit>) -> Option<Audit> {
+    AUDIT.with(|slot| std::mem::replace(&mut *slot.borrow_mut(), audit))
+}
+
+pub fn set_executor(executor: Option<Executor>) -> Option<Executor> {
+    EXECUTOR.with(|slot| std::mem::replace(&mut *slot.borrow_mut(), executor))
+}
+
+pub fn set_module_probe(probe: Option<ModuleProbe>) -> Option<ModuleProbe> {
+    MODULE_PROBE.with(|slot| std::mem::replace(&mut *slot.borrow_mut(), probe))
+}
+
+pub(crate) fn audit_tests(tests: &[Test]) {
+    AUDIT.with(|slot| {
+        if let Some(audit) = slot.borrow_mut().as_mut() {
+            audit(tests)
+        }
+    })
+}
+
+pub(crate) fn intercept_run(
+    tests: Vec<Test>,
+    run: &RunFn<'_>,
+) -> (Vec<Test>, Option<Vec<RawResult>>) {
+    EXECUTOR.with(|slot| match slot.borrow_mut().as_mut() {
+        Some(executor) => (Vec::new(), Some(executor(tests, run))),
+        None => (tests, None),
+    })
+}
+
+pub(crate) fn module_inferred(name: &str) {
+    MODULE_PROBE.with(|slot| {
+        if let Some(probe) = slot.borrow_mut().as_mut() {
+            probe(name)
+        }
+    })
+}
